@@ -59,14 +59,14 @@ impl SqliteStore {
     #[verifier::external_body]
     pub fn begin(&mut self) -> (r: Result<TransactionPermit, SqliteError>)
         requires !old(self).in_tx(),
-        ensures final(self).committed() == old(self).committed(),
+        ensures final(self).committed() == old(self).committed(), final(self).local_heights() == old(self).local_heights(),
             r is Ok ==> final(self).in_tx() && final(self).txview() == old(self).committed(),
             r is Err ==> !final(self).in_tx(),
     { unimplemented!() }
     #[verifier::external_body]
     pub fn commit(&mut self, permit: TransactionPermit) -> (r: Result<(), SqliteError>)
         requires old(self).in_tx(),
-        ensures !final(self).in_tx(),
+        ensures !final(self).in_tx(), final(self).local_heights() == old(self).local_heights(),
             r is Ok ==> final(self).committed() == old(self).txview(),
             r is Err ==> final(self).committed() == old(self).committed(),
     { unimplemented!() }
@@ -74,14 +74,14 @@ impl SqliteStore {
     #[verifier::external_body]
     pub fn get_cursor(&mut self, name: &String) -> (r: Result<Option<CursorT>, SqliteError>)
         requires !old(self).in_tx(),
-        ensures final(self).committed() == old(self).committed(), !final(self).in_tx(),
+        ensures final(self).committed() == old(self).committed(), !final(self).in_tx(), final(self).local_heights() == old(self).local_heights(),
             r is Ok ==> r->Ok_0 == (if old(self).committed().contains_key(*name) { Some(old(self).committed()[*name]) } else { None::<CursorT> }),
     { unimplemented!() }
     // CursorStore::set_cursor inside a transaction: upsert under the cursor's own name
     #[verifier::external_body]
     pub fn set_cursor(&mut self, cursor: &CursorT) -> (r: Result<(), SqliteError>)
         requires old(self).in_tx(),
-        ensures final(self).in_tx(), final(self).committed() == old(self).committed(),
+        ensures final(self).in_tx(), final(self).committed() == old(self).committed(), final(self).local_heights() == old(self).local_heights(),
             r is Ok ==> final(self).txview() == old(self).txview().insert(cursor.name, *cursor),
             r is Err ==> final(self).txview() == old(self).txview(),
     { unimplemented!() }
@@ -99,4 +99,47 @@ pub fn verif_borrow_identity<T>(x: &T) -> (r: &T) ensures r == x { x }
 // height of (a, l) in the persisted cursor `name` (None if there is no such cursor or no such log)
 pub open spec fn persisted_height(m: Map<String, CursorT>, name: String, a: VerifyingKey, l: LogId) -> Option<SeqNum> {
     if m.contains_key(name) { hget(m[name].state@, a, l) } else { None }
+}
+
+// ---- C15 kernel: which operations are replayed when a stream is re-opened -------------------------------------------------------
+pub type Rng = (Option<SeqNum>, Option<SeqNum>);
+pub open spec fn rget<A, L>(m: Map<A, BTreeMap<L, Rng>>, a: A, l: L) -> Option<Rng> {
+    if m.contains_key(a) && m[a]@.contains_key(l) { Some(m[a]@[l]) } else { None }
+}
+// the acked cursor is missing the log or is behind what is stored
+pub open spec fn need<A, L>(local: Map<A, BTreeMap<L, SeqNum>>, remote: Map<A, BTreeMap<L, SeqNum>>, a: A, l: L) -> bool {
+    hget(local, a, l) is Some && (hget(remote, a, l) is None || hget(remote, a, l)->0 < hget(local, a, l)->0)
+}
+pub open spec fn expected<A, L>(local: Map<A, BTreeMap<L, SeqNum>>, remote: Map<A, BTreeMap<L, SeqNum>>, a: A, l: L) -> Option<Rng> {
+    if need(local, remote, a, l) { Some((hget(remote, a, l), hget(local, a, l))) } else { None }
+}
+impl<A: Author, L: LogIdTrait> Cursor<A, L> {
+    // contract of the real Cursor::compare, proved in unit logs (C06): the diff of `other` against the cursor's own state
+    #[verifier::external_body]
+    pub fn compare(&self, other: &LogHeights<A, L>) -> (r: LogRanges<A, L>)
+        ensures forall|a: A, l: L| rget(r@, a, l) == expected(other@, self.state@, a, l)
+    { unimplemented!() }
+}
+impl SqliteStore {
+    // what the log store holds for the logs of this stream's topic (heights per author and log): SQL, not verified here
+    pub uninterp spec fn local_heights(&self) -> Map<VerifyingKey, BTreeMap<LogId, SeqNum>>;
+    // TopicStore::resolve: the (author, logs) associated with the topic; does not touch cursors
+    #[verifier::external_body]
+    pub fn resolve(&mut self, topic: &Topic) -> (r: Result<Logs, SqliteError>)
+        requires !old(self).in_tx(),
+        ensures final(self).committed() == old(self).committed(), !final(self).in_tx(), final(self).local_heights() == old(self).local_heights()
+    { unimplemented!() }
+}
+// file-local helper of acked.rs (one get_log_heights query per author): the stored heights of the given logs
+#[verifier::external_body]
+pub fn get_log_heights(store: &SqliteStore, logs: &Logs) -> (r: Result<LogHeights<VerifyingKey, LogId>, SqliteError>)
+    ensures r is Ok ==> (r->Ok_0)@ == store.local_heights()
+{ unimplemented!() }
+#[verifier::external_body]
+pub fn verif_name_differs(c: &CursorT, name: &String) -> (r: bool) ensures r == (c.name != *name) { unimplemented!() }
+#[verifier::external_body]
+pub fn verif_opaque_string() -> String { unimplemented!() }
+// the acknowledged heights persisted for this stream (empty if no cursor was stored yet)
+pub open spec fn acked_heights(m: Map<String, CursorT>, name: String) -> Map<VerifyingKey, BTreeMap<LogId, SeqNum>> {
+    if m.contains_key(name) { m[name].state@ } else { Map::<VerifyingKey, BTreeMap<LogId, SeqNum>>::empty() }
 }
